@@ -11,13 +11,13 @@ func init() {
 			"Not decided: encoding/binary and the hash function themselves.",
 		Assumptions: []string{"hash.Hash implementations consume Write calls as a byte stream"},
 		Rules: []Rule{
-			{Name: "H", Doc: "hash coverage and encoding discipline (H1-H4, G15)", MinInstances: 40, Run: runHash},
+			{Name: "H", Doc: "hash coverage and encoding discipline (H1-H4, G15)", MinInstances: 28, Run: runHash},
 			{Name: "G6", Doc: "no map range in the hasher", Run: func(c *Ctx) {
 				fns, _ := c.scope(c.anchors("gtfs:(*Trip).Hash", "gtfs:(*Vehicle).Hash"), scopeOpts{})
 				runG6(c, fns)
 				c.Stats["hasher functions"] = len(fns)
 			}},
-			{Name: "G8", Doc: "no clock/randomness in the hasher", MinInstances: 2, Run: func(c *Ctx) {
+			{Name: "G8", Doc: "no clock/randomness in the hasher", MinInstances: 1, Run: func(c *Ctx) {
 				runG8(c, c.anchors("gtfs:(*Trip).Hash", "gtfs:(*Vehicle).Hash"))
 			}},
 		},
